@@ -711,6 +711,37 @@ func (e *Enc) applyContract(fr *Frame, st *State, c *Contract, args []*Val, rt t
 				}
 			}
 		}
+		// hidden modifies: the concrete state behind an abstraction changes too; the caller loses what it knew about it,
+		// but its own frame clause is not asked to mention it
+		if len(c.HiddenMod) > 0 {
+			menv := &Env{e: e, vars: vars, st: pre, old: pre, pkgPath: c.PkgPath, imports: c.Imports, cells: e.applyCells}
+			if hfp, err := menv.footprintOfTargets(c.HiddenMod, nil); err != nil || hfp.all || len(hfp.whole) > 0 {
+				e.unsupportedf("hidden modifies of %s: only indexed targets are supported (%v)", c.Key, err)
+			} else {
+				if e.hiddenIdx == nil {
+					e.hiddenIdx = map[string][]string{}
+				}
+				for _, k := range sortedKeys(hfp.idx) {
+					for _, i := range hfp.idx[k] {
+						dup := false
+						for _, o := range e.hiddenIdx[k] {
+							dup = dup || o == i
+						}
+						if !dup {
+							e.hiddenIdx[k] = append(e.hiddenIdx[k], i)
+						}
+					}
+				}
+				for i, m := range c.HiddenMod {
+					if err := menv.havocTarget(st, m); err != nil {
+						e.unsupportedf("hidden modifies %s of %s: %v", c.HiddenSrc[i], c.Key, err)
+					}
+				}
+				if e.dry == 0 {
+					e.assumedUsed["hidden modifies of "+c.Key]++
+				}
+			}
+		}
 		if !c.Assumed {
 			// a verified callee may have handed out identities of the allocator ghost variables (not part of its frame)
 			for _, g := range sortedKeys(e.DB.Allocators) {
